@@ -141,6 +141,11 @@ pub fn c09(g: &mut G) {
             g.emit(format!("sink 0 default {} - _ {}", script.join(","), show_calls(&ins_calls(&kv))));
         }
     }
+    // a file large enough for 4-byte deltas (16 MiB+), read by an independent decoder (implementation only)
+    g.emit("!scale bigfile set 17".into());
+    if g.thorough {
+        g.emit("!scale bigfile map 17".into());
+    }
     // a file large enough for 3-byte deltas (64 KiB+)
     let mut rng = Rng::new(g.rng.next());
     let words = random_words(&mut rng, if g.thorough { 60_000 } else { 25_000 }, b"abcdefghijklmnop", 16);
@@ -224,6 +229,8 @@ pub fn c10(g: &mut G) {
             }
         }
     }
+    // 16 MiB+ files as written by earlier releases (4-byte address deltas), read by the crate
+    g.emit("!scale bigfile map 17 old".into());
     // header grid: versions × lengths 0..40
     let versions: [u64; 7] = [0, 1, 2, 3, 4, 1 << 32, u64::MAX];
     for &v in &versions {
@@ -275,6 +282,34 @@ pub fn c12(g: &mut G) {
         let kv = values(keys, i % VALUE_PATTERNS, &mut g.rng);
         g.emit(format!("!minimal map {}", show_calls(&ins_calls(&kv))));
     }
+    // a file of more than 64 KiB (128 KiB) with few nodes: 40 (80) distinct nodes of 256 transitions
+    // with outputs, and the same short tails before the first and after the last of them
+    for nw in [40usize, 80] {
+        let mut kv: Kv = vec![];
+        let mut v = 1u64;
+        for p in 0..nw {
+            for b in 0..=255u8 {
+                for tail in [&b"xyz"[..], &b"xz"[..]] {
+                    let mut k = vec![b'A' + (p / 26) as u8, b'a' + (p % 26) as u8, b];
+                    k.extend_from_slice(tail);
+                    kv.push((k, 0));
+                }
+            }
+        }
+        kv.sort();
+        for e in kv.iter_mut() {
+            // distinct values on the 256-way transitions, none inside the tails
+            if e.0.ends_with(b"xyz") {
+                // irregular gaps: the 256-way nodes of different prefixes must differ
+                v += 1 + fnv64(&e.0) % 60_000;
+            }
+            e.1 = v;
+        }
+        g.emit(format!("# widetail {}", nw));
+        g.emit(format!("stats 0 default {}", show_calls(&ins_calls(&kv))));
+        g.emit(format!("!minimal map {}", show_calls(&ins_calls(&kv))));
+    }
+    g.emit("!scale livebuilders 100".into());
     for f in ["words-10000", "words-100000", "wiki-urls-10000", "wiki-urls-100000"] {
         if f.contains("100000") && !g.thorough {
             continue;
@@ -422,6 +457,9 @@ pub fn c15(g: &mut G) {
         let script: Vec<String> = (0..2000).map(|_| "T64".to_string()).collect();
         g.emit(format!("sink 0 default {} - _ {}", script.join(","), show_calls(&ins_calls(&kv))));
     }
+    // very many builds in one thread (anything recycled between builds), many builders alive at once
+    g.emit(format!("!scale manybuilds {}", if g.thorough { 140_000 } else { 3_000 }));
+    g.emit("!scale livebuilders 100".into());
     // enough distinct nodes to overflow cache buckets (evictions): threads / processes must still agree
     let mut rng = Rng::new(g.rng.next());
     let big = random_words(&mut rng, if g.thorough { 120_000 } else { 40_000 }, b"abcdefghijklmnopqrstuvwxyz", 12);
@@ -430,6 +468,7 @@ pub fn c15(g: &mut G) {
 }
 
 pub fn c16(g: &mut G) {
+    g.emit("!scale bigfile map 17".into());
     // every subset of the strings of length <= 2 over {a,b} with values around 2^32 / 2^56:
     // sibling subtrees whose minima need 5+ byte outputs on the inner transitions
     let u = universe(b"ab", 2);
